@@ -173,3 +173,54 @@ def b_not(a):
 
 def b_xor(a, b):
     return b_or(b_and(a, b_not(b)), b_and(b_not(a), b))
+
+
+def pick(i, lo, hi):
+    """Concretise an int known to lie in [lo, hi) by forking on equalities (keeps
+    CrossHair's exhaustion bookkeeping exact, unlike model-value realisation)."""
+    if var_of(i) is None:
+        return i
+    for k in range(lo, hi - 1):
+        if i == k:
+            return k
+    return hi - 1
+
+
+_CONCRETE_ATOMS = (int, float, bool, str, type(None), type(Ellipsis), complex, bytes)
+
+
+def _conc(x, depth):
+    t = type(x)
+    if t in _CONCRETE_ATOMS:
+        return True
+    if depth <= 0:
+        return False
+    if t is slice:
+        return _conc(x.start, 1) and _conc(x.stop, 1) and _conc(x.step, 1)
+    if t is list or t is tuple:
+        for e in x:
+            if not _conc(e, depth - 1):
+                return False
+        return True
+    if hasattr(x, '_symnp_scalar'):
+        return type(x.v) in _CONCRETE_ATOMS
+    if hasattr(x, '_buf') and hasattr(x, '_strides'):
+        if len(x._buf) > 64:
+            return False
+        for e in x._buf:
+            if type(e) not in _CONCRETE_ATOMS:
+                return False
+        return True
+    return False
+
+
+def concrete(*objs):
+    """True when the objects contain no CrossHair symbolic values or proxies (checked
+    on real types, so it must run untraced)."""
+    if not HAVE_CH:
+        return True
+    with NoTracing():
+        for o in objs:
+            if not _conc(o, 3):
+                return False
+        return True
